@@ -2,6 +2,7 @@ package an
 
 import (
 	_ "embed"
+	"fmt"
 	"go/ast"
 	"go/token"
 	"go/types"
@@ -150,6 +151,134 @@ func (p *Prog) aliasIn(pk interface{}, info *types.Info, holder string, root ast
 		}
 		return true
 	})
+}
+
+// aliasFuncValues gives a new declared function that is used exactly once, as a function value (never
+// called by name), inside a function the rules know, the name a function literal at that place would
+// have ("(*Runtime).executeYieldBlock$1"): a closure that was turned into a named function or a method
+// value keeps its identity for rules, obligation keys and known findings.  Literals and such values
+// are numbered together in source order, as literals alone are on the tree the rules were written for.
+func (p *Prog) aliasFuncValues() {
+	// how every declared function is used
+	called, valued := map[*types.Func]int{}, map[*types.Func]int{}
+	for _, pk := range p.Pkgs {
+		info := pk.TypesInfo
+		for _, file := range pk.Syntax {
+			callFun := map[*ast.Ident]bool{}
+			ast.Inspect(file, func(n ast.Node) bool {
+				if c, ok := n.(*ast.CallExpr); ok {
+					switch f := Unparen(c.Fun).(type) {
+					case *ast.Ident:
+						callFun[f] = true
+					case *ast.SelectorExpr:
+						callFun[f.Sel] = true
+					}
+				}
+				if id, ok := n.(*ast.Ident); ok {
+					if fo, ok := info.Uses[id].(*types.Func); ok {
+						if callFun[id] {
+							called[fo]++
+						} else {
+							valued[fo]++
+						}
+					}
+				}
+				return true
+			})
+		}
+	}
+	candidate := func(info *types.Info, id *ast.Ident) *Fn {
+		fo, _ := info.Uses[id].(*types.Func)
+		fn := p.FnByObj[fo]
+		if fn == nil || fn.Decl == nil || fn.DeclName != "" || !p.IsNewHelper(fn) || called[fo] != 0 || valued[fo] != 1 {
+			return nil
+		}
+		return fn
+	}
+	rename := func(fn *Fn, alias string) {
+		if fn.Name == alias {
+			return
+		}
+		if _, dup := p.FnByName[alias]; dup {
+			return
+		}
+		oldName := fn.Name
+		if fn.Decl != nil {
+			fn.DeclName = oldName
+		}
+		delete(p.FnByName, oldName)
+		fn.Name = alias
+		p.FnByName[alias] = fn
+		if fn.Decl != nil {
+			p.FnByName[oldName] = fn
+		}
+		for _, l := range fn.Lits {
+			if strings.HasPrefix(l.Name, oldName+"$") {
+				delete(p.FnByName, l.Name)
+				l.Name = alias + strings.TrimPrefix(l.Name, oldName)
+				p.FnByName[l.Name] = l
+			}
+		}
+	}
+	for _, parent := range append([]*Fn(nil), p.Fns...) {
+		if parent.Body == nil || (parent.Decl != nil && p.IsNewHelper(parent)) || strings.Contains(parent.Name, "/") {
+			continue
+		}
+		info := parent.Info()
+		type slot struct {
+			lit *Fn
+			val *Fn
+		}
+		var slots []slot
+		any := false
+		ast.Inspect(parent.Body, func(n ast.Node) bool {
+			switch x := n.(type) {
+			case *ast.FuncLit:
+				if l := p.FnByLit[x]; l != nil {
+					slots = append(slots, slot{lit: l})
+				}
+				return false
+			case *ast.Ident:
+				if h := candidate(info, x); h != nil {
+					slots = append(slots, slot{val: h})
+					any = true
+				}
+			}
+			return true
+		})
+		if !any {
+			continue
+		}
+		base := parent.Name
+		for k, sl := range slots {
+			alias := fmt.Sprintf("%s$%d", base, k+1)
+			if sl.lit != nil {
+				if !strings.Contains(strings.TrimPrefix(sl.lit.Name, base), "/") {
+					rename(sl.lit, alias)
+				}
+			} else {
+				rename(sl.val, alias)
+			}
+		}
+	}
+}
+
+// FnOfValue resolves an expression that denotes a function — a literal, the name of a declared
+// function, or a method value — to that function.
+func (p *Prog) FnOfValue(info *types.Info, e ast.Expr) *Fn {
+	switch v := Unparen(e).(type) {
+	case *ast.FuncLit:
+		return p.FnByLit[v]
+	case *ast.Ident:
+		if fo, ok := info.Uses[v].(*types.Func); ok {
+			return p.FnByObj[fo]
+		}
+	case *ast.SelectorExpr:
+		if fo, ok := info.Uses[v.Sel].(*types.Func); ok {
+			return p.FnByObj[fo]
+		}
+	}
+	return nil
 }
 
 // receiverRole: the name under which the receiver of a method of these types is rendered by Str and in
